@@ -408,6 +408,11 @@ func raceOne(o *Obligation, prefix, file string, opts SolveOpts, stats *SolverSt
 		o2 := opts
 		o2.Seed = opts.Seed + 7919
 		o2.RaceMs = opts.RaceMs * 3
+		// the retry is the last word on the obligation: if the machine is oversubscribed right now (other checks started
+		// after this one), give it the CPU time it would have had alone
+		if f := loadFactor(); f > 1 {
+			o2.RaceMs = int(float64(o2.RaceMs) * f)
+		}
 		raceOnce(o, prefix, file, o2, stats)
 		o.Output = first + " | retry: " + o.Output
 	}
